@@ -279,7 +279,7 @@ impl BulkLoader {
                 max_dst: 0,
                 offsets: vec![0, 0],
                 edges: Vec::new(),
-                in_offsets: Vec::new(),
+                in_offsets: vec![0, 0],
                 in_edges: Vec::new(),
             }]);
         }
